@@ -22,6 +22,8 @@ func runC14(c *Check, tier string) {
 	ruleR14f(c, "R14f")
 	// "success" is what the store path records and what the process exits with
 	useFamily(c, "R14h", famStore, 20)
+	// an output check (and the command) fails when its last command fails
+	ruleWrapperStatus(c, "R14j")
 	shareRule(c, "R14i", "a non-nil execution error or any failed completion ends in a non-zero exit (same obligations as R05d)", 3, "R05d", func(sub *Check) { ruleR05d(sub, "R05d") }, nil)
 	// a timeout is a failure: the walker records every error but plain cancellation
 	if w := findWalker(c, "R14g"); w != nil {
